@@ -918,24 +918,12 @@ func (c *Check) mergedIffNoError() {
 	}
 	f = collectionFunction(f)
 	n := 0
-	for _, b := range f.Blocks {
-		for _, ins := range b.Instrs {
-			call, ok := ins.(*ssa.Call)
-			if !ok {
-				continue
-			}
-			bi, ok := call.Call.Value.(*ssa.Builtin)
-			if !ok || bi.Name() != "append" || len(call.Call.Args) < 2 {
-				continue
-			}
-			// appends the source's profile
-			isProfile := false
-			for _, v := range variadicValues(call.Call.Args[1]) {
-				if v != nil && isFieldLoad(v, "driver.profileSource", "p") {
-					isProfile = true
-				}
-			}
-			if !isProfile {
+	for _, hs := range harvestSites(f) {
+		{
+			call := hs.ins
+			b := call.Block()
+			// puts the source's profile into the list to merge
+			if !isFieldLoad(hs.val, "driver.profileSource", "p") {
 				continue
 			}
 			n++
